@@ -3,6 +3,7 @@ package rules
 import (
 	"go/ast"
 	"go/types"
+	"strconv"
 	"strings"
 
 	"gengoverif/checker/internal/core"
@@ -34,14 +35,39 @@ func isTypesType(t types.Type) bool {
 // protectedOperand: the operand is types.Unalias(..) or x.Underlying(), possibly
 // through single-definition locals.
 func protectedOperand(f *core.Func, e ast.Expr) (bool, string) {
+	return protectedExpr(f, e, map[*types.Var]bool{})
+}
+
+func protectedExpr(f *core.Func, e ast.Expr, seen map[*types.Var]bool) (bool, string) {
 	info := f.Info()
-	e, _ = core.Resolve(info, f.Root().Body, e)
+	body := f.Root().Body
+	e, _ = core.Resolve(info, body, e)
 	if c, ok := ast.Unparen(e).(*ast.CallExpr); ok {
 		switch name := core.CalleeName(info, c); {
 		case name == "go/types.Unalias":
 			return true, "types.Unalias"
 		case len(name) > 11 && name[len(name)-11:] == ".Underlying":
 			return true, "Underlying()"
+		}
+	}
+	// a local that is assigned more than once: every value it can hold is looked through
+	// (`t := types.Unalias(a); if p, ok := t.(*types.Pointer); ok { t = types.Unalias(p.Elem()) }`)
+	if v := core.VarOf(info, e); v != nil && !v.IsField() && core.DeclaredIn(info, body, v) && !seen[v] {
+		seen[v] = true
+		defs := core.DefsOf(info, body, v)
+		how := ""
+		for _, d := range defs {
+			if d.Rhs == nil || d.Index >= 0 || (d.Kind != "define" && d.Kind != "var" && d.Kind != "assign") {
+				return false, ""
+			}
+			ok, h := protectedExpr(f, d.Rhs, seen)
+			if !ok {
+				return false, ""
+			}
+			how = h
+		}
+		if len(defs) > 0 {
+			return true, how + " at each of its " + strconv.Itoa(len(defs)) + " definitions"
 		}
 	}
 	return false, ""
